@@ -13,7 +13,13 @@ from . import wasmfam, wasmcheck
 PID = "C06"
 
 
+HISTORIES = [["g0", "r0", "g1"], ["r1", "g1", "g2"], ["g3", "r2", "r3", "g0"], ["r0", "r1", "g4", "g1"], ["g1", "g2", "g3", "g4", "g0"], ["r4", "g2"], ["g0", "r4", "g3", "r1", "g1"],
+             ["r2", "g4", "r0", "g2", "r3", "g3"]]
+
+
 def run_instance(inst):
+    if "order" in inst:
+        return wasmcheck.run_history(inst, "agreement")
     return wasmcheck.run_program(inst, "agreement")
 
 
@@ -28,6 +34,8 @@ def run(tier, seed, only=None):
     insts = wasmfam.family_s(tier, seed) + wasmfam.family_outside(tier, seed) + [i for i in wasmfam.family_shapes(tier, seed) if "multi" in i["tags"] or "mixed-locals" in i["tags"]]
     if only:
         insts = [i for i in insts if only in i["name"] or only in i["tags"]]
+    else:
+        insts += [dict(order=h, name="history " + " ".join(h), tags=["history"]) for h in HISTORIES]
     chk.assumptions = ["i32 values compared exactly under the assumption that the VM's result lies in the 32-bit range; arguments and constants in [-100, 100] (programs with one "
                        "operation: constants over the whole 32-bit range, arguments in [-1000, 1000])", "f32 as reals (single-precision rounding outside); replay through wasmtime with tolerance 1e-4",
                        "paths on which the VM fails with its defined division-by-zero error are outside the comparison", "O2's evaluator cross-checked with wasmtime on every replay"]
